@@ -33,6 +33,22 @@ func main() {
 		os.Stdout.Write(engine.BaselineOf(p))
 		return
 	}
+	if strings.HasPrefix(*debug, "ssa:") {
+		p, err := engine.Load(engine.Config{Repo: *repo})
+		if err != nil {
+			fmt.Fprintln(os.Stderr, err)
+			os.Exit(2)
+		}
+		for _, n := range p.Normalised {
+			fmt.Println("# normalised:", n)
+		}
+		for _, fn := range p.Funcs {
+			if strings.Contains(p.FuncName(fn), strings.TrimPrefix(*debug, "ssa:")) {
+				fn.WriteTo(os.Stdout)
+			}
+		}
+		return
+	}
 	if *debug == "items" {
 		engine.DebugItems(*repo)
 		return
